@@ -9,8 +9,39 @@ import gen_rrscripts
 
 ID = "C03"
 IMPORTS = ["CaresProps.C03"]
-LEAN_TARGETS = ["CaresModel.Dns.Write", "driver_write"]      # own modules only (see end of file)
-THEOREMS = []          # filled in below (kept in one place with the explanation of each)
+LEAN_TARGETS = ["CaresProps.C03", "driver_write"]      # own modules only (other slices build their own)
+THEOREMS = [
+    # name layer
+    "Cares.C03.unescape_escape",
+    "Cares.C03.labels_concat",
+    "Cares.C03.decode_append",
+    "Cares.C03.name_offsets_invariant",
+    "Cares.C03.written_name_parses",
+    # scripted RR types (scripts regenerated from the clang AST on every run)
+    "Cares.C03.generated_scripts_compatible",
+    "Cares.C03.fields_roundtrip",
+    # messages, frames, legacy builders
+    "Cares.C03.roundtrip_partial",
+    "Cares.C03.no_truncation",
+    "Cares.C03.frame_roundtrip_partial",
+    "Cares.C03.createQuery_recOk",
+    "Cares.C03.create_query_parse",
+    # translator obligations (hand-written switches = regenerated tables)
+    "Cares.C03.rrKeys_eq_generated",
+    "Cares.C03.keyDatatype_eq_generated",
+    "Cares.C03.allowNameComp_eq_generated",
+    "Cares.C03.script_keys_are_rrKeys",
+    "Cares.C03.recTypeValid_eq_generated",
+    "Cares.C03.hostname_chars_eq_generated",
+    "Cares.C03.escape_eq_parser",
+    # kernel-checked counterexamples for the guards of roundtrip_partial (open findings F33..F38)
+    "Cares.C03.c03_fails_qdcount",
+    "Cares.C03.c03_fails_extrcode_without_opt",
+    "Cares.C03.c03_fails_opt_class_ttl",
+    "Cares.C03.c03_fails_rawrr_decoded_type",
+    "Cares.C03.c03_fails_nonprintable_string",
+    "Cares.C03.c03_fails_rewrite_spelling",
+]
 GENERATORS = [gen_rrscripts.generate]
 
 # ------------------------------------------------------------------------------------------------
@@ -580,7 +611,7 @@ def wire_rdata(rng, t, msg_so_far, pool, table, host_only):
     elif t == 257:
         rd += blob(rng, 1, 1) + cs(label(rng, 1, 10).encode()) + blob(rng, 1, 40)
     else:
-        rd += blob(rng, 0 if rng.random() < 0.1 else 1, 40)
+        rd += blob(rng, 1, 40)
     return rd
 
 
@@ -737,7 +768,7 @@ STREAMS = [
     Stream("big", "h_write", "driver_write", gen_big, nontrivial=nontrivial, compare=compare, opkind=opkind),
     Stream("mkquery", "h_write", "driver_write", gen_mkquery, monitor=mon_mkquery, nontrivial=nontrivial,
            compare=compare, opkind=opkind),
-    Stream("parsed", "h_write", None, gen_parsed, nontrivial=nontrivial, compare=compare, opkind=opkind),
+    Stream("parsed", "h_write", "driver_write", gen_parsed, nontrivial=nontrivial, compare=compare, opkind=opkind),
 ]
 
 TRUSTED = [
@@ -762,6 +793,23 @@ RULE = ("a case is one record built through the public setters (or parsed from a
 EXPLANATION = ("Round-trip theorems over the writer model + byte-exact correspondence of the real writer with that "
                "model on generated records of every RR type; the harness additionally re-parses, compares field by "
                "field and re-writes every message the real code produced (the property itself, on the implementation).")
-LEVEL_TEXT = "filled in below"
-LEVEL_NOTE = "filled in below"
+LEVEL_TEXT = ("Proof (partial): Lean 4 theorems over executable models of the message writer (ares_dns_write.c, write side of "
+              "ares_dns_name.c, record builder API, ares_create_query) and of the parser (C02/C04 slice). Proved for every "
+              "record in the decidable class recOk (what the typed setters guarantee, minus the input classes of findings "
+              "F33-F37): write r = ok bs -> |bs| <= 65535 and parse bs = ok (canon r) (names in the parser's spelling, TXT "
+              "chunks <= 255), no 16/14-bit field truncated, and write (canon r) = ok bs when r is spelled canonically "
+              "(F38); the same for the TCP frame appended behind ANY queued bytes; ares_create_query/ares_mkquery without "
+              "guards; name layer (unescape(escape ls) = ls, offset-list invariant, decode stability under append) and the "
+              "generic lemma for scripted RR types over scripts regenerated from the clang AST at full strength. The full "
+              "statement is false on the tree for F33-F38; each guard has a kernel-checked counterexample replayed on the "
+              "implementation. Not proved: that every record produced by the parser is in recOk and canonical (the "
+              "'Parsed r' half is covered by the correspondence stream only). Tie: byte-exact comparison of the real writer "
+              "with the compiled model on generated records of every RR type (shared suffixes, escapes, mixed case, up to "
+              "and beyond 16 KiB / 64 KiB, TCP frames behind queued data), and the harness re-parses, compares field by "
+              "field through the public getters and re-writes every message the real code produced.")
+LEVEL_NOTE = ("Trusted: Lean kernel (axioms propext, Classical.choice, Quot.sound only); faithfulness of the hand-written "
+              "writer model as far as the byte-exact correspondence stream exercises it; the parser model of the C02/C04 "
+              "slice; tools/gen_rrscripts.py + clang AST; harness/h_write.c and its monitor; the runner. Requires the fix "
+              "commits of branch wt-c03 (F5, F6, F7, F30-C03, F31-C03, F32-C03, F39-C03): on the unrepaired tree the check "
+              "reports those as violations with failing inputs.")
 TECHNIQUE = "Lean 4 round-trip proof over an executable writer model + differential correspondence with the C writer"
